@@ -47,7 +47,7 @@ func TestLongC09History(t *testing.T) {
 		initial := vgen.Entries(t, "init", 1, 6).Entries
 		maxLen := 1700
 		if vev.Thorough() {
-			maxLen = vev.IntEnv("VERIF_C09_LONG", 4500)
+			maxLen = vev.IntEnv("VERIF_C09_LONG", 3200)
 		}
 		var L int
 		switch rapid.IntRange(0, 2).Draw(t, "lenband") {
